@@ -167,7 +167,7 @@ def _bitarray_model():
             return tot.astype(_np.uint64)
 
     def pack(cls, array, bit_stride):
-        if isinstance(array, SymArray) and has_sym(array):
+        if isinstance(array, SymArray):          # also for concrete content: the real routine shifts by NumPy scalars the backend does not produce
             return SymBitArray(array, int(bit_stride))
         return real_pack(cls, array, bit_stride)
     ba.BitArray.pack = classmethod(pack)
